@@ -31,6 +31,65 @@ Print M.
 """
 
 
+
+FRAG_V = """From Verif Require Import Base.Str Syntax.Pos Syntax.Reader Syntax.PosCheck.
+Open Scope N_scope.
+Definition tpos_eqb (a b : tpos) : bool :=
+  let '(o1, l1, c1) := a in let '(o2, l2, c2) := b in Nat.eqb o1 o2 && (l1 =? l2)%%Z && (c1 =? c2)%%Z.
+Fixpoint tl_eqb (a b : list tpos) : bool :=
+  match a, b with [], [] => true | x::a', y::b' => tpos_eqb x y && tl_eqb a' b' | _, _ => false end.
+Definition derived (f : file) : list tpos :=
+  [file_pos f; file_end f] ++
+  flat_map (fun s => [stmt_pos s; stmt_end s; call_pos (s_args s); call_end (s_args s)] ++
+                     flat_map (fun a => [part_pos a; part_end a]) (s_args s)) f.
+Definition cases : list (str * file * list tpos * bool) := %s.
+Fixpoint mism (i : nat) (cs : list (str * file * list tpos * bool)) : list nat :=
+  match cs with [] => []
+  | (src, f, d, ok) :: rest =>
+     if tl_eqb (derived f) d && Bool.eqb (check_file src f) ok then mism (S i) rest else i :: mism (S i) rest end.
+Definition M := Eval vm_compute in mism 0 cases.
+Print M.
+"""
+
+
+def tp(p):
+    return "(%d%%nat,(%d)%%Z,(%d)%%Z)" % (p[0], p[1], p[2])
+
+
+def frag_case(r):
+    stmts = []
+    for pos, semi, parts in r["stmts"]:
+        ps = []
+        for kind, p1, p2, val in parts:
+            v = "[" + ";".join(str(b) for b in bytes.fromhex(val)) + "]"
+            ps.append(("PLit (mklit %s %s %s)" if kind == 0 else "PSgl (mksgl %s %s %s)") % (tp(p1), tp(p2), v))
+        stmts.append("mkstmt %s %s %s" % (tp(pos), coq_list(ps), "(Some %s)" % tp(semi) if semi else "None"))
+    src = "[" + ";".join(str(b) for b in bytes.fromhex(r["src"])) + "]"
+    return "(%s,%s,%s,%s)" % (src, coq_list(stmts), coq_list([tp(d) for d in r["derived"]]), "true" if r["go_ok"] else "false")
+
+
+def frag_leg(ctx, binp, n):
+    rc, rows, err = ctx.jsonl([binp, "frag", "-seed", str(ctx.seed), "-n", str(n)])
+    if rc != 0 or not rows:
+        ctx.broken.append(("harness-run", "c09 frag failed rc=%d %s" % (rc, err[-400:])))
+        return
+    mism, total = [], 0
+    for sh in range(0, len(rows), 1000):
+        part = rows[sh:sh + 1000]
+        ok, out = ctx.coq_cases("c09f_%d" % sh, FRAG_V % coq_list([frag_case(r) for r in part]))
+        m = re.search(r"M\s*=\s*(\[[^\]]*\])", out)
+        if not ok or not m:
+            ctx.broken.append(("correspondence:code-eval", "coqc on fragment cases failed: " + out[-800:]))
+            return
+        total += len(part)
+        for i in [int(x) for x in re.findall(r"\d+", m.group(1))]:
+            mism.append({"src": part[i]["src"], "mut": part[i].get("mut"), "go_ok": part[i]["go_ok"], "stmts": part[i]["stmts"]})
+    ctx.extra["fragment_cases"] = {"total": total, "perturbed": sum(1 for r in rows if r.get("mut")),
+                                   "go_rejects": sum(1 for r in rows if not r["go_ok"])}
+    ctx.leg("code:Pos()/End() of File/Stmt/CallExpr/Word/Lit/SglQuoted and the Go checker's verdict vs Syntax/PosCheck.v "
+            "(transliterated Pos/End + checker twin, vm_compute in kernel), parsed and one-position-perturbed trees", total, mism)
+
+
 def zl(l):
     return "[" + ";".join("(%d)%%Z" % x for x in l) + "]"
 
@@ -61,6 +120,7 @@ def run(ctx):
     ctx.leg("code:NewPos/Offset/Line/Col/IsValid/IsRecovered/After/posAddCol/nextPos vs Syntax/Pos.v (vm_compute in kernel)", total, mism)
     for r in rows[:2]:
         ctx.sample(r)
+    frag_leg(ctx, binp, 600 if quick else 8000)
     # ---- witnesses of the listed findings
     rc, wrows, err = ctx.jsonl([binp, "witness"])
     ctx.extra["known_finding_witnesses"] = [{"class": w["witness"], "reproduced": w["reproduced"]} for w in wrows]
@@ -120,7 +180,7 @@ META = {
              "checked on every node of every parsed tree (start<=end, inside input, line/col agree with offset, keyword/operator/"
              "quote/literal text at its position, statements in order, child within parent) over corpus + generated inputs with "
              "CRLF, NUL, escaped newlines, heredocs, backquotes, multi-byte runes, 5 variants, no input exempted."),
-    "note": ("Universal for Pos packing and the reader's positions; positions the parser derives above the reader (posAddCol "
+    "note": ("Universal (proved) for Pos packing and for every position the reader hands out (C09_linecol, all inputs and schedules); checker twin proved sound on a small node fragment; positions the parser derives above the reader (posAddCol "
              "arithmetic, End() methods) are validated per tree by the search. Seven known-finding classes, four defects repaired."),
     "design_ref": "DESIGN.md 4 C09",
 }
